@@ -22,6 +22,12 @@ enum Op {
   Update(usize, usize),
   Rename(usize, usize),
   Remove(usize),
+  /// one call with two items (the same module may be named twice)
+  UpdateBatch(usize, usize, usize, usize),
+  RenameBatch(usize, usize, usize, usize),
+  RemoveBatch(usize, usize),
+  /// deleting a file the server was never told about: the language server maps its URL to ROOT
+  RemoveUnknown,
 }
 
 fn all_ops() -> Vec<Op> {
@@ -37,6 +43,7 @@ fn all_ops() -> Vec<Op> {
     }
     v.push(Op::Remove(m));
   }
+  v.push(Op::RemoveUnknown);
   v
 }
 
@@ -72,6 +79,25 @@ fn run(history: &[Op]) -> Result<(), String> {
         state.remove(&[refs[m]]);
         contents.remove(&m);
       }
+      Op::UpdateBatch(m1, t1, m2, t2) => {
+        state.update(vec![(refs[m1], TEXTS[t1].to_string()), (refs[m2], TEXTS[t2].to_string())]);
+        contents.insert(m1, t1);
+        contents.insert(m2, t2);
+      }
+      Op::RenameBatch(m1, n1, m2, n2) => {
+        state.rename_module(vec![(refs[m1], refs[n1]), (refs[m2], refs[n2])]);
+        for (m, n) in [(m1, n1), (m2, n2)] {
+          if let Some(t) = contents.remove(&m) {
+            contents.insert(n, t);
+          }
+        }
+      }
+      Op::RemoveUnknown => state.remove(&[ModuleReference::ROOT]),
+      Op::RemoveBatch(m1, m2) => {
+        state.remove(&[refs[m1], refs[m2]]);
+        contents.remove(&m1);
+        contents.remove(&m2);
+      }
     }
   }
   let incremental = state.get_error_dump();
@@ -81,6 +107,10 @@ fn run(history: &[Op]) -> Result<(), String> {
       Op::Update(m, t) => format!("update {}.sam := {:?}", NAMES[m], TEXTS[t]),
       Op::Rename(m, n) => format!("rename {}.sam -> {}.sam", NAMES[m], NAMES[n]),
       Op::Remove(m) => format!("remove {}.sam", NAMES[m]),
+      Op::UpdateBatch(m1, t1, m2, t2) => format!("update in one call [{}.sam := {:?}, {}.sam := {:?}]", NAMES[m1], TEXTS[t1], NAMES[m2], TEXTS[t2]),
+      Op::RenameBatch(m1, n1, m2, n2) => format!("rename in one call [{}.sam -> {}.sam, {}.sam -> {}.sam]", NAMES[m1], NAMES[n1], NAMES[m2], NAMES[n2]),
+      Op::RemoveUnknown => "remove a file the server was never told about (ROOT)".to_string(),
+      Op::RemoveBatch(m1, m2) => format!("remove in one call [{}.sam, {}.sam]", NAMES[m1], NAMES[m2]),
     };
     return Err(format!(
       "start {{A.sam: {:?}, B.sam: {:?}, D.sam: {:?}}}; history: {}; the server holds {:?} but a freshly started server on the same files reports {:?}",
@@ -121,6 +151,24 @@ fn verif_witness_search() {
   for _ in 0..1500 {
     let len = 3 + (next() % 2) as usize;
     let h: Vec<Op> = (0..len).map(|_| ops[(next() % ops.len() as u64) as usize]).collect();
+    if let Err(w) = run(&h) {
+      println!("WITNESS: {w}");
+      return;
+    }
+    checked += 1;
+  }
+  // calls with two items, the same module possibly named twice
+  let (nn, nt) = (NAMES.len() as u64, TEXTS.len() as u64);
+  for _ in 0..1500 {
+    let len = 1 + (next() % 3) as usize;
+    let h: Vec<Op> = (0..len)
+      .map(|_| match next() % 5 {
+        0 | 1 => Op::UpdateBatch((next() % nn) as usize, (next() % nt) as usize, (next() % nn) as usize, (next() % nt) as usize),
+        2 => Op::RenameBatch((next() % nn) as usize, (next() % nn) as usize, (next() % nn) as usize, (next() % nn) as usize),
+        3 => Op::RemoveBatch((next() % nn) as usize, (next() % nn) as usize),
+        _ => ops[(next() % ops.len() as u64) as usize],
+      })
+      .collect();
     if let Err(w) = run(&h) {
       println!("WITNESS: {w}");
       return;
